@@ -432,6 +432,9 @@ def make_case(desc):
     fam = tuple(desc["fam"])
     seq = [tuple(s) for s in desc["seq"]]
     if desc["sub"] == "constraints":
+        if desc.get("placement") == "chain" and fam[3] == "decl" and seq and G.TYPEINFO[fam[0]][3] == "int" \
+                and _final_a(fam, seq[:1]).denominator != 1:
+            return None, set()   # the first parse() of the chain would end on a non-integral integer (not demanded)
         progs = build(fam, seq, desc.get("placement", "root"), props=constraint_props(fam, desc["ckind"]))
         return progs, case_tags(fam, seq, desc.get("placement", "root")) | {"constraint:" + desc["ckind"]}
     if desc["sub"] == "functions":
